@@ -78,6 +78,30 @@ theorem reject_recovered_partial {H : Nat → Nat} {s s' : St} {n : String} {l :
     exact ⟨(u, x.nextId), by rw [c2]; simp, c3⟩
   · rw [c6] at hs; simp at hs
 
+/-- a rejected message whose hash cannot be computed: `actionCreateRecoveredMessage` ignores the
+    error of `MessageHashesMap.Insert` and stores the message anyway — it is in the recovery mailbox
+    afterwards, byte for byte, unless the recovery insert's own store / database write failed -/
+theorem reject_unhashable {H : Nat → Nat} {s s' : St} {n : String} {l : Lit} {e : Err} {known : Bool}
+    (h : append H s n l = (.rejected e known, s')) (hp : l.parseOk = true) (hh : l.hashOk = false) :
+    known = false ∧ (inRecovery s' l = true ∨
+      ∃ x e2, appendRegular s n l = (.error e, x) ∧ (withTx x (fun s => actionCreateRecovered H s l)).1 = .error e2) := by
+  obtain ⟨_, _, x, hx, hs', hk⟩ := append_rejected_cases h
+  have sp := createRecovered_spec H x l
+  rcases sp.cases with ⟨_, _, _, _, c5⟩ | ⟨c1, ⟨u, c2⟩, c3, _, _⟩ | ⟨_, c2, _⟩
+  · rcases c5 with ⟨_, _, c, _⟩ | ⟨⟨e2, he2⟩, _⟩
+    · rw [hh] at c; simp at c
+    · refine ⟨?_, Or.inr ⟨x, e2, hx, he2⟩⟩
+      rcases hk with hk | ⟨hk, _⟩
+      · rw [he2] at hk; simp at hk
+      · exact hk
+  · refine ⟨?_, Or.inl ?_⟩
+    · rcases hk with hk | ⟨hk, _⟩
+      · rw [c1] at hk; simp at hk; exact hk
+      · exact hk
+    · rw [inRecovery_iff, ← hs']
+      exact ⟨(u, x.nextId), by rw [c2]; simp, c3⟩
+  · rw [hh] at c2; simp at c2
+
 theorem nodup_map_inj {α β} (f : α → β) : ∀ (l : List α), (l.map f).Nodup → ∀ a ∈ l, ∀ b ∈ l, f a = f b → a = b := by
   intro l
   induction l with
